@@ -498,6 +498,9 @@ fn binop_name(op: ast::BinaryOp) -> &'static str {
         B::RShift(_) => "DoubleRight",
         B::LAnd(_) => "DoubleAnd",
         B::LOr(_) => "DoublePipe",
+        // an operator added after this harness was written: outside the modelled operator set
+        #[allow(unreachable_patterns)]
+        _ => "UnknownBinaryOp",
     }
 }
 fn unop_name(op: ast::UnaryOp) -> &'static str {
@@ -507,6 +510,8 @@ fn unop_name(op: ast::UnaryOp) -> &'static str {
         U::Neg(_) => "Hyphen",
         U::BNot(_) => "Tilde",
         U::LNot(_) => "Bang",
+        #[allow(unreachable_patterns)]
+        _ => "UnknownUnaryOp",
     }
 }
 
